@@ -40,6 +40,9 @@ def sels_for(nf, names):
         extra += [{"t": "list", "v": [0, 2, 1, 3]}, {"t": "list", "v": [1, 3, 3, 3][: nf]}, {"t": "names", "v": [nl[0], nl[2], nl[1], nl[3]]}]
     # empty selections (numpy: no component): a refusal or boxes without components, never other components
     extra += [{"t": "slice", "v": [None, -nf - 2, None]}, {"t": "slice", "v": [nf + 1, None, None]}]
+    # ... and the empty selections of reversed bounds (start after stop with a forward step)
+    extra += [{"t": "slice", "v": [nf, 1, None]}, {"t": "slice", "v": [-1, 0, None]}, {"t": "slice", "v": [nf + 5, 1, None]},
+              {"t": "slice", "v": [nf, 0, 2]}, {"t": "slice", "v": [1, 1, None]}]
     for s in extra:
         if selectors.meaning(s, nf, names) is not None and not selectors.must_honour_field(s, nf, names):
             out.append(dict(s, promised=False))
@@ -115,7 +118,21 @@ def run_spec(ctx, rep, spec, model, orders, real_pool=False, only=None):
             if only is not None:
                 break
             bm = selectors.meaning(bsel, nb)
-            if bm is None or bm[0]:
+            if bm is None:
+                continue
+            if bm[0]:
+                # a single box number: the data of that box, directly or as the only item of an iterator
+                case = {"spec": spec, "iter": True, "level": lv, "bsel": bsel}
+                rep.case({"s": spec, "iter": 1, "l": lv, "b": bsel}, nontrivial=False)
+                rep.count("iter:single")
+                try:
+                    with alarm(60), quiet(), pools.controlled(start=orders[-1]):
+                        r = pck[0][lv].iter(selectors.decode(bsel))
+                        got_list = [r] if isinstance(r, np.ndarray) else list(r)
+                except Exception as e:
+                    continue          # refusing the form is not a violation of C15
+                if [key(a) for a in got_list] != [key(truth[(lv, bm[1][0])][..., 0])]:
+                    rep.fail(f"on-demand iterator for box number {bsel['v']} delivers {len(got_list)} item(s), not the data of that box", case)
                 continue
             case = {"spec": spec, "iter": True, "level": lv, "bsel": bsel}
             rep.case({"s": spec, "iter": 1, "l": lv, "b": bsel}, nontrivial=len(bm[1]) > 1)
@@ -181,6 +198,8 @@ def run(ctx, rep, model=True):
         # all the reader's own grid bookkeeping - not under test here - can cope with)
         spec["idx_shift"] = -ctx.rng.randint(1, min(spec["grid0"]) - 1) if (i % 5 in (2, 4) and min(spec["grid0"]) >= 2) else 0
         if spec["idx_shift"]: rep.count("negative-indices")
+        if i % 4 == 1:
+            spec["stray_empty"] = True; rep.count("zero-length-unreferenced-binary-files")
         run_spec(ctx, rep, spec, model, orders_for(ctx))
         if len(rep.violations) >= 10:
             return
